@@ -248,6 +248,43 @@ fn redeclarations(b: &Base) -> Vec<(String, Value)> {
         set_hex(&mut v, "public_input.log_n_steps", &(s + df));
         out.push((format!("trace exponent +{} (heights, FRI sizes, last-layer bound, log_n_steps follow)", d), v));
     }
+    // trace exponent +8 / +40 with EXTRA FRI LAYERS of step 4 (so that the configuration stays valid: the
+    // last-layer bound is unchanged), heights, FRI input size, layer count, commitments, witnesses and
+    // log_n_steps all following
+    for d in [8u64, 40] {
+        let k = (d / 4) as usize;
+        let n_steps_now = b.value["config"]["fri"]["fri_step_sizes"].as_array().map(|a| a.len()).unwrap_or(0);
+        if n_steps_now + k > 15 || n_inner == 0 {
+            continue;
+        }
+        let mut v = b.value.clone();
+        let df = Felt::from(d);
+        let t = get_hex(&v, "config.log_trace_domain_size");
+        set_hex(&mut v, "config.log_trace_domain_size", &(t + df));
+        for h in heights {
+            let x = get_hex(&v, h);
+            set_hex(&mut v, h, &(x + df));
+        }
+        for i in 0..n_inner {
+            let p = format!("config.fri.inner_layers[{}].vector.height", i);
+            let x = get_hex(&v, &p);
+            set_hex(&mut v, &p, &(x + df));
+        }
+        let nf = get_hex(&v, "config.n_verifier_friendly_commitment_layers");
+        let mut h = get_hex(&v, &format!("config.fri.inner_layers[{}].vector.height", n_inner - 1));
+        for j in 0..k {
+            h -= Felt::from(4u64);
+            v["config"]["fri"]["fri_step_sizes"].as_array_mut().unwrap().push(Value::String("0x4".into()));
+            v["config"]["fri"]["inner_layers"].as_array_mut().unwrap().push(json!({"n_columns": "0x10", "vector": {"height": fhex(&h), "n_verifier_friendly_commitment_layers": fhex(&nf)}}));
+            v["unsent_commitment"]["fri"]["inner_layers"].as_array_mut().unwrap().push(Value::String(format!("{:#x}", 0x7777 + j)));
+            v["witness"]["fri_witness"]["layers"].as_array_mut().unwrap().push(json!({"leaves": [], "table_witness": {"vector": {"authentications": []}}}));
+        }
+        let nl = get_hex(&v, "config.fri.n_layers");
+        set_hex(&mut v, "config.fri.n_layers", &(nl + Felt::from(k as u64)));
+        let st = get_hex(&v, "public_input.log_n_steps");
+        set_hex(&mut v, "public_input.log_n_steps", &(st + df));
+        out.push((format!("trace exponent +{} with {} extra FRI layers (valid configuration and public input)", d, k), v));
+    }
     // blow-up exponent with all heights following
     for c in [1u64, 16] {
         let mut v = b.value.clone();
